@@ -203,6 +203,13 @@ func runWorld(res *harness.R, w *model.World, r *rand.Rand, verbose, sample bool
 	if hasEdges(w) {
 		res.Key(desc)
 	}
+	readWorld(res, w, b, r, verbose, desc)
+}
+
+// readWorld reads the configuration b (which realises w, possibly after a
+// history of reads and mutations) through every entry point and judges each
+// read against the model of w.
+func readWorld(res *harness.R, w *model.World, b *vx.Built, r *rand.Rand, verbose bool, desc string) {
 	steps := 0
 	maxSteps := 0
 	ucfg.VerifSetHook(func(kind, site, s string, a, b int) {
